@@ -50,9 +50,14 @@ def gen_cases(E, ctx):
             for i in range(60 if not ctx.thorough else 600):
                 cases.append(E.make_case(rng, s, maxdepth=rng.choice([1, 2, 3]), size=0.3, klass='embed-top-level',
                                          embed_bias=rng.choice([0.0, 0.5]), embed_top=1.0, embed_ws=rng.choice([0.0, 0.3, 1.0])))
+    if 'bnest' in E.BC:        # 34..80 and more nested buffers in one build repeating the parent's table shapes (see checks/c15.py)
+        for i in range(4 if not ctx.thorough else 40):
+            cases.append(E.make_many_nested_case(rng, rng.choice([9, 12, 16, 20]), styles=i % 2 == 1))
     if 'bwide' in E.BC:
         for i in range(4 if not ctx.thorough else 40):
             cases.append(E.make_wide_case(rng, count=rng.choice([100, 130, 200])))
+        for i in range(24 if not ctx.thorough else 240):      # table types whose vtables differ in the table size only (verifier, decoder, model)
+            cases.append(E.make_pair_case(rng))
         # many distinct vtables of many lengths clustered at the back of the buffer, through flatcc's DEFAULT emitter (back pages)
         for i in range(10 if not ctx.thorough else 100):
             cases.append(E.make_wide_case(rng, count=rng.choice([100, 150, 200, 300, 400]), many_vtables=True))
@@ -198,6 +203,8 @@ def run(ctx):
     # alignment arguments above the 512 byte padding block (outside the documented 1..256): own harness process per script, one key
     na, nhit = E.align_above_512(rng, 16 if not ctx.thorough else 160)
     ctx.log('table-size-limit: %d scripts (%d too large and not refused); align-above-512: %d scripts (%d over-reads)' % (nt, nbad, na, nhit))
+    # table shapes whose vtables are equal except for the table size, many pairs in one buffer, some meeting in one bucket of the vtable cache
+    E.vtable_size_pairs(rng, 24 if not ctx.thorough else 400)
     flagged = check_case_oracles(E, ctx, cases)
     # model / implementation disagreements that the oracles did not already explain
     explained = False
